@@ -3544,14 +3544,17 @@ in_float_range(PyObject *value, PyObject *range_info)
         return -1;
     }
 
+    /* The comparisons are written positively ("is inside"), so that a NaN
+       value or bound, for which every comparison is false, is rejected,
+       exactly as by the Python-level BaseRange validators. */
     if (low != Py_None) {
         if ((exclude_mask & 1) != 0) {
-            if (PyFloat_AS_DOUBLE(value) <= PyFloat_AS_DOUBLE(low)) {
+            if (!(PyFloat_AS_DOUBLE(value) > PyFloat_AS_DOUBLE(low))) {
                 return 0;
             }
         }
         else {
-            if (PyFloat_AS_DOUBLE(value) < PyFloat_AS_DOUBLE(low)) {
+            if (!(PyFloat_AS_DOUBLE(value) >= PyFloat_AS_DOUBLE(low))) {
                 return 0;
             }
         }
@@ -3559,12 +3562,12 @@ in_float_range(PyObject *value, PyObject *range_info)
 
     if (high != Py_None) {
         if ((exclude_mask & 2) != 0) {
-            if (PyFloat_AS_DOUBLE(value) >= PyFloat_AS_DOUBLE(high)) {
+            if (!(PyFloat_AS_DOUBLE(value) < PyFloat_AS_DOUBLE(high))) {
                 return 0;
             }
         }
         else {
-            if (PyFloat_AS_DOUBLE(value) > PyFloat_AS_DOUBLE(high)) {
+            if (!(PyFloat_AS_DOUBLE(value) <= PyFloat_AS_DOUBLE(high))) {
                 return 0;
             }
         }
